@@ -102,7 +102,7 @@ impl Property for C11 {
         ]
     }
     fn enumerate(&self, tier: Tier, sh: &mut Shard, f: &mut dyn FnMut(C11Case) -> bool) {
-        for ty in 0..NT {
+        for ty in ROUTINE_TIDS {
             for by_ref in [false, true] {
                 if !sh.mine() {
                     continue;
@@ -152,7 +152,7 @@ impl Property for C11 {
         }
         // slices: every count up to just beyond the capacity
         let maxitems = tier.pick(5, 12);
-        for ty in 0..NT {
+        for ty in ROUTINE_TIDS {
             for nty in NAT_TYS {
                 if !sh.mine() {
                     continue;
@@ -201,8 +201,44 @@ impl Property for C11 {
                 }
             }
         }
+        // the 70 400-bit fixed type and a geometric ladder of lengths up to megabits -> integers
+        let mut long: Vec<(Tid, usize)> = HUGE_TYPE_LENS.iter().map(|&n| (TID_HUGE, n)).collect();
+        long.extend(ladder_lengths(tier));
+        for (ty, n) in long {
+            if !sh.mine() {
+                continue;
+            }
+            let mut vals = vec![Bits::zeros(n), Bits::from_u128(u128::MAX, n), Bits::from_u128(0xdead_beef, n), dense_value(n)];
+            for wtop in [n - 1, n / 2 + 3, 130, 64] {
+                let mut b = Bits::from_u128(0x2a, n);
+                b.0[wtop.min(n - 1)] = true;
+                vals.push(b);
+            }
+            for (j, a) in vals.into_iter().enumerate() {
+                for nty in NAT_TYS {
+                    let prov = if j % 2 == 1 && ty != TID_HUGE { Prov::Spare(200) } else { Prov::Canon };
+                    if !f(C11Case::ToNat { a: Operand { ty, bits: a.clone(), prov }, nty, by_value: (j + n) % 2 == 0 }) {
+                        return;
+                    }
+                }
+            }
+        }
+        // long slices -> the 70 400-bit type (fits / just fits / exceeds) and the unbounded types
+        for (ty, nty, count) in [(TID_HUGE, NatTy::U8, 8800usize), (TID_HUGE, NatTy::U8, 8801), (TID_HUGE, NatTy::U64, 1100), (TID_HUGE, NatTy::U64, 1101), (TID_HUGE, NatTy::U16, 4399), (TID_HUGE, NatTy::U128, 550), (TID_HUGE, NatTy::U32, 2201), (TID_D, NatTy::U8, 70_001), (TID_A, NatTy::U16, 40_000), (TID_D, NatTy::U128, 4097), (TID_A, NatTy::U64, 8193), (TID_D, NatTy::U32, 33_001)] {
+            if !sh.mine() {
+                continue;
+            }
+            for pat in 0..3u128 {
+                let items: Vec<Nat> = (0..count).map(|i| Nat::new(nty, match pat { 0 => nty.maxv(), 1 => (i as u128 + 1).wrapping_mul(0x0123_4567_89AB_CDEF_0F1E_2D3C_4B5A_6979), _ => if i + 1 == count { 1 } else { 0 } })).collect();
+                for skew in [0usize, 3] {
+                    if !f(C11Case::FromSlice { ty, nty, items: items.clone(), skew }) {
+                        return;
+                    }
+                }
+            }
+        }
         // vectors -> integers: every length
-        for ty in 0..NT {
+        for ty in ROUTINE_TIDS {
             let c = fixed_cap(ty).unwrap_or(320);
             for n in 0..=c {
                 if !sh.mine() {
